@@ -345,7 +345,12 @@ type SeederCfg struct {
 	ChokePause time.Duration
 	// LateServe: on a connection without the fast extension the block that triggers the choke is
 	// sent after the choke frame (it was 'already in the send buffer'), not before it
-	LateServe   bool
+	LateServe bool
+	// LateReject: on a connection with the fast extension a request that arrives while choking is
+	// rejected after the unchoke frame instead of at once (BEP 6 sets no deadline for the reject: a peer
+	// whose choke timer runs before its request queue answers in this order). The client then holds a
+	// rejected block on an unchoked connection and no unchoke message will follow.
+	LateReject  bool
 	AllowedFast []int
 	// ServeDelay before each block
 	ServeDelay time.Duration
@@ -385,6 +390,7 @@ type SeederState struct {
 	PEXMsgs        int
 	PortMsgs       int
 	AllowedFastRx  []int
+	LateRejects    int // rejects held back until after the unchoke frame (SeederCfg.LateReject)
 }
 
 // RunSeeder drives the connection until it closes. It returns the observed state.
@@ -441,6 +447,7 @@ func RunSeeder(c *Conn, cfg SeederCfg, st *SeederState) {
 		st.Mu.Unlock()
 	}
 	nreq := 0
+	var lateRejects []refwire.Msg // guarded by st.Mu
 	for {
 		m, err := c.Read(0)
 		if err != nil {
@@ -519,7 +526,18 @@ func RunSeeder(c *Conn, cfg SeederCfg, st *SeederState) {
 				delete(st.Outstanding, [3]uint32{m.Index, m.Begin, m.Length})
 				st.Mu.Unlock()
 				if c.FastOn() {
-					c.Send(refwire.Msg{ID: refwire.Reject, Index: m.Index, Begin: m.Begin, Length: m.Length})
+					rej := refwire.Msg{ID: refwire.Reject, Index: m.Index, Begin: m.Begin, Length: m.Length}
+					if cfg.LateReject {
+						st.Mu.Lock()
+						if !st.Unchoked {
+							lateRejects = append(lateRejects, rej)
+							st.LateRejects++
+							st.Mu.Unlock()
+							continue
+						}
+						st.Mu.Unlock()
+					}
+					c.Send(rej)
 				}
 				continue
 			}
@@ -613,8 +631,13 @@ func RunSeeder(c *Conn, cfg SeederCfg, st *SeederState) {
 					if !c.Closed() {
 						st.Mu.Lock()
 						st.Unchoked = true // before the frame leaves: a request answering it must be served
+						rj := lateRejects
+						lateRejects = nil
 						st.Mu.Unlock()
 						c.Send(refwire.Msg{ID: refwire.Unchoke})
+						for _, m := range rj {
+							c.Send(m)
+						}
 					}
 				}()
 			}
